@@ -243,6 +243,7 @@ struct SimCase
   int grid = 0;                  // support: 0 points (exactly the probe locations), 1 grid
   int cpr = 4;                   // grid: cells per smallest range
   double gangle = 0.;            // grid rotation (degrees, 2-D / about z)
+  std::vector<double> gfac;      // grid: extension factor per axis (>= 1), empty = 1
   std::vector<double> anchors;   // K x ndim
   int nb = 60;                   // tb: number of bands; spectral: number of components; spde: refinement (cells per range)
   int opt = 1;                   // spde: 1 Cholesky, 0 Chebyshev; fft: anti-aliasing flag
@@ -250,7 +251,7 @@ struct SimCase
   int nbsimu = 250, ncalls = 4, seed = 1; // R = nbsimu * ncalls; call k uses callSeed(seed, k)
   template<class A> void io(A& a)
   {
-    a("sim", sim)("ndim", ndim)("nvar", nvar)("st", st)("means", means)("grid", grid)("cpr", cpr)("gangle", gangle);
+    a("sim", sim)("ndim", ndim)("nvar", nvar)("st", st)("means", means)("grid", grid)("cpr", cpr)("gangle", gangle)("gfac", gfac);
     a("anchors", anchors)("nb", nb)("opt", opt)("border", border)("nbsimu", nbsimu)("ncalls", ncalls)("seed", seed);
   }
   double rmax() const { double r = 0; for (auto& s : st) if (s.type != T_NUGGET) r = std::max(r, s.range); return r; }
@@ -378,7 +379,7 @@ static std::unique_ptr<Db> buildSupport(const SimCase& c, Probes& P)
   std::vector<double> dx((size_t)ndim, cell), x0f((size_t)ndim);
   for (int d = 0; d < ndim; d++)
   {
-    double ext = std::max(hi[(size_t)d] - lo[(size_t)d] + 2. * cell, minExt);
+    double ext = std::max(hi[(size_t)d] - lo[(size_t)d] + 2. * cell, minExt) * (d < (int)c.gfac.size() ? c.gfac[(size_t)d] : 1.);
     double mid = 0.5 * (hi[(size_t)d] + lo[(size_t)d]);
     nx[(size_t)d] = (int)std::ceil(ext / cell) + 1;
     x0f[(size_t)d] = mid - 0.5 * (nx[(size_t)d] - 1) * cell;
@@ -388,6 +389,11 @@ static std::unique_ptr<Db> buildSupport(const SimCase& c, Probes& P)
   VectorDouble angles;
   if (c.gangle != 0. && ndim >= 2) { angles = VectorDouble((size_t)ndim, 0.); angles[0] = c.gangle; }
   std::unique_ptr<Db> db(DbGrid::create(toVI(nx), toVD(dx), toVD(x0), angles));
+  if (getenv("VERIF_C14_DIAG") && !getenv("VERIF_C14_DIAG_ONCE"))
+  {
+    setenv("VERIF_C14_DIAG_ONCE", "1", 1);
+    diag(fmt("D grid nx=%d,%d dx=%.6g x0=%.10g,%.10g angle=%g", nx[0], ndim > 1 ? nx[1] : 1, dx[0], x0[0], ndim > 1 ? x0[1] : 0., c.gangle));
+  }
   // snap: nearest node, coordinates read back from the Db
   int nn = db->getSampleNumber();
   std::vector<double> gx((size_t)(nn * ndim));
@@ -546,7 +552,12 @@ static std::string simTag(const SimCase& c)
   switch (c.sim)
   {
     case SIM_TB: return c.grid ? "tb:grid" : "tb:points";
-    case SIM_FFT: return "fft";
+    case SIM_FFT: // same / different numbers of nodes along the axes (see report: the two behave differently)
+    {
+      bool rect = false;
+      for (double f : c.gfac) rect = rect || f != c.gfac[0];
+      return rect ? "fft:rect" : "fft:square";
+    }
     case SIM_SPECTRAL: return "spectral";
     default: return c.opt ? "spde:chol" : "spde:cheb";
   }
@@ -815,6 +826,14 @@ static SimCase genFft()
   if (G::pct(25)) c.st.push_back(genNugget(c.ndim, 1));
   c.anchors = genAnchors(c.ndim, c.ndim == 3 ? 4 : 6, 1.5 * c.rmax(), G::pick<double>({0., 0., 5000.}));
   c.cpr = c.ndim == 3 ? 2 : 3;
+  c.gfac.assign((size_t)c.ndim, 1.);
+  if (c.ndim >= 2 && G::pct(50))
+  {
+    // different extensions along the axes (the probes' box is < 3 ranges: the extension is 3 ranges * gfac)
+    std::vector<int> p = G::perm(c.ndim);
+    c.gfac[(size_t)p[0]] = G::pick<double>({1.25, 1.5});
+    if (c.ndim == 3) c.gfac[(size_t)p[1]] = G::pick<double>({1., 1.25});
+  }
   c.opt = G::pct(70) ? 1 : 0;
   // one realisation per call (simfft creates a single output column whatever nbsimu: recorded under C13)
   genEnsemble(c, 1, 1000, 4000);
